@@ -13,11 +13,13 @@ def _is_sig(r):
     return isinstance(r, int) and r in (0, 1)
 
 
-def _read_n(conn, n, log, tag):
+def _read_n(conn, n, log, tag, exact=False):
     got = b""
     while len(got) < n:
         data = None
-        for r in conn.readAsync(None, 1):
+        want = n - len(got)
+        for r in (conn.readAsync(want, want) if exact else
+                  conn.readAsync(None, 1)):
             if _is_sig(r):
                 yield r
             else:
@@ -28,6 +30,18 @@ def _read_n(conn, n, log, tag):
     log.append((tag, got))
     if len(got) < n and tag != "read-eof":
         raise PeerClosed()
+
+
+def _write_parts(conn, msg, multi):
+    """One write, or (multi) three writes so that the message spans three
+    records and the reader's read(min=len) has to go back to the socket
+    with part of the message already buffered."""
+    parts = [msg] if not multi else [msg[:len(msg) // 3],
+                                     msg[len(msg) // 3:2 * len(msg) // 3],
+                                     msg[2 * len(msg) // 3:]]
+    for part in parts:
+        for r in conn.writeAsync(part):
+            yield r
 
 
 class PeerClosed(Exception):
@@ -58,17 +72,19 @@ def server_prog(conn, scen, log, opts, cache=None):
 def _client_prog(conn, scen, log, opts, session=None):
     for r in scen.client_gen(conn, session=session):
         yield r
+    conn._verif_dead_at_hs = _transport_dead(conn)
     log.append(("hs", "ok", W.view(conn)))
     if opts.get("closeSocket") is not None:
         conn.closeSocket = opts["closeSocket"]
     if opts.get("ignoreAbruptClose") is not None:
         conn.ignoreAbruptClose = opts["ignoreAbruptClose"]
-    for r in conn.writeAsync(MSG1):
+    multi = bool(opts.get("multi_record"))
+    for r in _write_parts(conn, MSG1, multi):
         yield r
     log.append(("write", len(MSG1)))
-    for r in _read_n(conn, len(MSG2), log, "read"):
+    for r in _read_n(conn, len(MSG2), log, "read", multi):
         yield r
-    for r in conn.writeAsync(MSG3):
+    for r in _write_parts(conn, MSG3, multi):
         yield r
     log.append(("write", len(MSG3)))
     for r in conn.closeAsync():
@@ -79,17 +95,19 @@ def _client_prog(conn, scen, log, opts, session=None):
 def _server_prog(conn, scen, log, opts, cache=None):
     for r in scen.server_gen(conn, cache=cache):
         yield r
+    conn._verif_dead_at_hs = _transport_dead(conn)
     log.append(("hs", "ok", W.view(conn)))
     if opts.get("closeSocket") is not None:
         conn.closeSocket = opts["closeSocket"]
     if opts.get("ignoreAbruptClose") is not None:
         conn.ignoreAbruptClose = opts["ignoreAbruptClose"]
-    for r in _read_n(conn, len(MSG1), log, "read"):
+    multi = bool(opts.get("multi_record"))
+    for r in _read_n(conn, len(MSG1), log, "read", multi):
         yield r
-    for r in conn.writeAsync(MSG2):
+    for r in _write_parts(conn, MSG2, multi):
         yield r
     log.append(("write", len(MSG2)))
-    for r in _read_n(conn, len(MSG3), log, "read"):
+    for r in _read_n(conn, len(MSG3), log, "read", multi):
         yield r
     # wait for the peer's close_notify: read returns b"" then
     for r in _read_n(conn, 1, log, "read-eof"):
@@ -99,9 +117,16 @@ def _server_prog(conn, scen, log, opts, cache=None):
     log.append(("close", "ok"))
 
 
+def _transport_dead(conn):
+    sock = conn.sock
+    sock = getattr(sock, "socket", sock)
+    return bool(getattr(sock, "dead", False))
+
+
 def observe(conn, log, outcome):
     s = conn.session
     return {"log": [tuple(x) for x in log],
+            "dead_at_hs": bool(getattr(conn, "_verif_dead_at_hs", False)),
             "outcome": outcome.sig() if outcome is not None else None,
             "closed": bool(conn.closed),
             "resumable": bool(s.resumable) if s is not None else None}
